@@ -361,10 +361,22 @@ fn main() {
     }
     let std = Stdfs::new();
     let mut id = 0u64;
-    for (ti, t) in trees.iter().enumerate() {
+    for (ti, t0) in trees.iter().enumerate() {
         if (ti as u64) % stride != 0 || ((ti as u64) / stride) % workers != worker {
             continue;
         }
+        // every other selected tree holds invalid UTF-8 in its non-empty files (read_all / read_lines must fail alike)
+        let mut t1 = t0.clone();
+        if ((ti as u64) / stride) % 2 == 1 {
+            for n in t1.values_mut() {
+                if let Node::File(d) = n {
+                    if !d.is_empty() {
+                        *d = vec![0xff, b'x'];
+                    }
+                }
+            }
+        }
+        let t = &t1;
         build_std(&root, t);
         std::env::set_current_dir(&root).unwrap();
         let tree_rep = observe(&root);
